@@ -9,7 +9,7 @@ Not decided: that the counters count the stated relations; the 0..100 range.
 """
 from ..build import AnalysisBroken
 from ..affine import loop_range
-from ..util import site, reaching_sources, const_value, local_defs
+from ..util import site, reaching_sources, const_value, local_defs, guards
 
 
 def describe(ck):
@@ -372,8 +372,36 @@ def r17f(ck, prog):
                          "so identical alignments no longer score exactly 100" % narrow[0].text()[:40], prog.config)
 
 
+def r17g(ck, prog):
+    """each alignment is rendered on its own: in kalign_msa_compare a call finalise_alignment(X) is guarded only by tests of X
+    itself - whether the reference is rendered must not depend on the state of the test alignment or vice versa"""
+    K = prog.fn("kalign_msa_compare")
+    n = 0
+    for c in K.body.calls("finalise_alignment"):
+        a0 = c.args[0].strip(casts=True) if c.args else None
+        if a0 is None or a0.k != "DeclRefExpr":
+            continue
+        n += 1
+        others = set()
+        for cond, pol in guards(c):
+            if cond.parent is None or cond.parent.k != "IfStmt" or any(m_ in ("RUN", "RUNP") for m_ in cond.mac):
+                continue
+            for r in cond.find("DeclRefExpr"):
+                if r.ty.replace("const ", "").startswith("struct msa") and r.d["did"] != a0.d["did"]:
+                    others.add(r.d["name"])
+        where = site(prog, c, "finalise_alignment(%s)" % a0.d["name"])
+        ck.inst("R17g", where, "finalise_alignment(%s) is guarded by tests of %s" % (a0.d["name"], "itself only" if not others else sorted(others)), prog.config)
+        if others:
+            ck.violation("R17g", "R17g/kalign_msa_compare/%s" % a0.d["name"], where,
+                         "whether alignment '%s' is rendered into gapped rows also depends on the state of '%s': comparing an alignment "
+                         "made in this process with one read from a file leaves one of them unrendered (alnlen 0) and the score is 0/0" % (
+                             a0.d["name"], "/".join(sorted(others))), prog.config)
+    ck.floor("R17g", n, 2, "finalise_alignment calls in kalign_msa_compare")
+
+
 def run(ck, progs):
     describe(ck)
+    ck.rule("R17g", "finalise_alignment(X) in kalign_msa_compare is guarded by tests of X only")
     ck.rule("R17e", "each row-walking loop of compare_pair is bounded by the length of the alignment its rows belong to (pairing taken from the call site)")
     ck.rule("R17f", "the score is computed in double precision: no float-typed operand on the way from the counters to *score")
     ck.rule("R17d", "uniqueness check and row-matching order compare names with the same function over the same span")
@@ -385,6 +413,7 @@ def run(ck, progs):
         ck.attempt(r17d, ck, prog)
         ck.attempt(r17e, ck, prog)
         ck.attempt(r17f, ck, prog)
+        ck.attempt(r17g, ck, prog)
     return ("CFG dominance of both sort calls over the pairing loop, argument pairing and loop ranges of the compare_pair "
             "call, field read set of the row-matching comparator; classification of compare_pair's counters by the row "
             "parameters their loops scan, and reaching definitions of numerator and denominator of the stored score.")
